@@ -24,6 +24,8 @@ def property_items(kind, st, rules):
     import re
     if kind == "struct":         # C04: at every condition evaluation and at return
         return struct_items(st)
+    if kind == "closed-own":
+        return S.closed_own(st, rules)
     if kind == "closed":         # C01: at `return false`
         items = S.closed(st, rules)
         if EXCLUDE[0]:
@@ -58,8 +60,8 @@ def search(su, U, k, K, kind, early=False, resume=False, k2=0, timeout_s=300, so
     def on_return_first(rv):
         if kind == "struct":
             bad.append(-M.conj(property_items("struct", h.st, su.rules)))
-        if kind == "closed" and not resume:
-            bad.append(c.and2(-rv, -M.conj(property_items("closed", h.st, su.rules))))
+        if kind in ("closed", "closed-own") and not resume:
+            bad.append(c.and2(-rv, -M.conj(property_items(kind, h.st, su.rules))))
         if kind == "contract":      # C07: the state at return differs from the state in which the condition was last evaluated
             import lemmas as L
             conds = h.steps[-1][1]
@@ -162,7 +164,7 @@ def replay(su, sch, harness, name, script, kind, rules, U=8):
         else:
             if where.startswith("cond") or last_ret != "false":
                 continue            # closedness is claimed after close() / `return false` only
-            items = property_items("closed", st, rules)
+            items = property_items(kind if kind == "closed-own" else "closed", st, rules)
         for lab, l in items:
             if l == F:
                 failing.append("%s: %s" % (where, lab))
